@@ -5,7 +5,7 @@
    (here: for the control flow before the repairs 3de556b / fe25b5c, kept as regression witnesses). *)
 From Coq Require Import List Arith ZArith QArith Reals Bool Lia.
 From TLV Require Import Base.Shape Base.Tensor Base.RSum Model.Structure Proofs.StructureProofs Proofs.StructureProofs2
-  Proofs.StructureProofsR Proofs.StructureNormR.
+  Proofs.StructureProofs3 Proofs.StructureProofsR Proofs.StructureNormR.
 Import ListNotations.
 Local Open Scope nat_scope.
 
@@ -105,6 +105,14 @@ Theorem C08_tensor_ring_first_core : forall shape spec mode cores rank,
 Proof. exact tensor_ring_first_core. Qed.
 Print Assumptions C08_tensor_ring_first_core.
 
+(* tensor_ring, any start mode: EVERY core's left rank is bounded by the validated request at its own position and every
+   right rank by the request at the next position (cyclically: the request has first = last) *)
+Theorem C08_tensor_ring_ranks_le : forall shape spec mode cores rank,
+  tensor_ring shape spec mode = Ok cores -> validate_tr_rank shape spec RRound = Ok rank ->
+  Forall2 le (map (fun c => nth 0 c 0) cores) (removelast rank) /\ Forall2 le (map (fun c => nth 2 c 0) cores) (tl rank).
+Proof. exact tensor_ring_ranks_le. Qed.
+Print Assumptions C08_tensor_ring_ranks_le.
+
 (* tensor_ring_als: core k = (rank_k, I_k, rank_k+1) with the validated ranks, first rank = last rank *)
 Theorem C08_tensor_ring_als_structure : forall shape spec out, tensor_ring_als shape spec = Ok out ->
   exists rank, validate_tr_rank shape spec RRound = Ok rank /\
@@ -140,6 +148,58 @@ Theorem C08_validate_tucker_rank_frac_pos : forall shape q rd c r, validate_tuck
   Forall (fun x => 1 <= x) r.
 Proof. exact validate_tucker_rank_frac_pos. Qed.
 Print Assumptions C08_validate_tucker_rank_frac_pos.
+
+(* tucker with fixed factors.  As the code is, the ranks of the updated modes are read at the wrong positions of the rank list
+   (known finding tucker_fixed_factors_rank_misaligned): the shapes are the requested ones only under the named hypotheses. *)
+Theorem C08_tucker_fixed_constant_rank_partial : forall shape r fixed,
+  tucker_fixed shape (repeat r (length shape)) fixed = tucker_fixed_intended shape (repeat r (length shape)) fixed.
+Proof. exact tucker_fixed_constant_rank. Qed.
+Print Assumptions C08_tucker_fixed_constant_rank_partial.
+Theorem C08_tucker_fixed_trailing_partial : forall shape rank fixed k, (forall i, memb i fixed = true <-> k <= i) ->
+  tucker_fixed shape rank fixed = tucker_fixed_intended shape rank fixed.
+Proof. exact tucker_fixed_trailing. Qed.
+Print Assumptions C08_tucker_fixed_trailing_partial.
+Theorem C08_tucker_fixed_refuted :
+  tucker_fixed [4; 5; 6] [2; 3; 4] [0] = Ok [[2; 2; 3]; [4; 2]; [5; 2]; [6; 3]] /\
+  tucker_fixed_intended [4; 5; 6] [2; 3; 4] [0] = Ok [[2; 3; 4]; [4; 2]; [5; 3]; [6; 4]].
+Proof. exact tucker_fixed_misaligned. Qed.
+Print Assumptions C08_tucker_fixed_refuted.
+(* the intended flow (candidate repair): factor m is I_m x rank_m for a fixed mode, I_m x min(rank_m, I_m) for an updated one *)
+Theorem C08_tucker_fixed_intended_structure : forall shape rank fixed out, tucker_fixed_intended shape rank fixed = Ok out ->
+  exists core factors, out = core :: factors /\ length core = length shape /\ length factors = length shape /\
+  forall m, m < length shape -> nth m factors [] = [nth m shape 0; nth m core 0] /\
+    nth m core 0 = if memb m fixed then nth m rank 0 else Nat.min (nth m rank 0) (nth m shape 0).
+Proof. exact tucker_fixed_intended_structure. Qed.
+Print Assumptions C08_tucker_fixed_intended_structure.
+
+(* correctness of the rounding model of the rank validators: np.round on an exact rational is within 1/2 and even on ties
+   (this characterises round-half-to-even); floor / ceil; rounding_fun(sqrt(x)) decided by integer square roots *)
+Theorem C08_round_half_even_spec : forall x : Q, let z := round_half_even x in
+  ((inject_Z z - (1 # 2) <= x)%Q /\ (x <= inject_Z z + (1 # 2))%Q) /\
+  ((x == inject_Z z - (1 # 2))%Q \/ (x == inject_Z z + (1 # 2))%Q -> Z.even z = true).
+Proof. exact round_half_even_spec. Qed.
+Print Assumptions C08_round_half_even_spec.
+Theorem C08_qround_floor_ceil_spec : forall x : Q,
+  ((inject_Z (qround RFloor x) <= x)%Q /\ (x < inject_Z (qround RFloor x) + 1)%Q) /\
+  ((inject_Z (qround RCeil x) - 1 < x)%Q /\ (x <= inject_Z (qround RCeil x))%Q).
+Proof. exact (fun x => conj (qround_floor_spec x) (qround_ceil_spec x)). Qed.
+Print Assumptions C08_qround_floor_ceil_spec.
+Theorem C08_sqrt_round_floor_spec : forall x : Q, (0 <= Qnum x)%Z -> let n := sqrt_round RFloor x in
+  (0 <= n /\ n * n * Zpos (Qden x) <= Qnum x /\ Qnum x < (n + 1) * (n + 1) * Zpos (Qden x))%Z.
+Proof. exact sqrt_round_floor_spec. Qed.
+Print Assumptions C08_sqrt_round_floor_spec.
+Theorem C08_sqrt_round_ceil_spec : forall x : Q, (0 < Qnum x)%Z -> let m := sqrt_round RCeil x in
+  ((m - 1) * (m - 1) * Zpos (Qden x) < Qnum x /\ Qnum x <= m * m * Zpos (Qden x))%Z.
+Proof. exact sqrt_round_ceil_spec. Qed.
+Print Assumptions C08_sqrt_round_ceil_spec.
+Theorem C08_sqrt_round_round_spec : forall x : Q, (0 <= Qnum x)%Z -> let r := sqrt_round RRound x in
+  (0 <= r /\ 4 * Qnum x <= (2 * r + 1) * (2 * r + 1) * Zpos (Qden x) /\
+  (1 <= r -> (2 * r - 1) * (2 * r - 1) * Zpos (Qden x) <= 4 * Qnum x) /\
+  ((4 * Qnum x = (2 * r + 1) * (2 * r + 1) * Zpos (Qden x) \/ (1 <= r /\ 4 * Qnum x = (2 * r - 1) * (2 * r - 1) * Zpos (Qden x))) -> Z.even r = true))%Z.
+Proof. exact sqrt_round_round_spec. Qed.
+Print Assumptions C08_sqrt_round_round_spec.
+Example C08_round_ex : round_half_even (5 # 2) = 2%Z /\ round_half_even (7 # 2) = 4%Z /\ sqrt_round RRound (9 # 4) = 2%Z /\ sqrt_round RCeil (2 # 1) = 2%Z.
+Proof. vm_compute. repeat split. Qed.
 
 (* ================================================================== the normalisation contract (loop skeleton) *)
 (* St: any state space; sweep: one ALS / MU / HALS sweep; normalise: cp_normalize; decisions: per executed sweep
